@@ -432,7 +432,17 @@ def extract(repo):
         key = {'__name__': '.className', 'sqlmeta.table': '.tableName'}.get(found[0][0])
         expect(key, 'ownership test of %s compares %s' % (fname, found[0][0]))
         return key
-    link_create, link_drop = link_key('_getJoinsToCreate'), link_key('dropJoinTables')
+    def iterates_joins_to_create(fname):
+        """the join loop of `fname` runs over `cls._getJoinsToCreate()` (so it applies that function's tests)"""
+        fn = find_func(so_cls, fname)
+        loops = [n for n in ast.walk(fn) if isinstance(n, ast.For) and ast.unparse(n.target) == 'join']
+        expect(len(loops) == 1, 'join loop of %s: %d loops' % (fname, len(loops)))
+        it = ast.unparse(loops[0].iter)
+        expect(it in ('cls._getJoinsToCreate()', 'cls.sqlmeta.joins'), 'join loop of %s iterates %s' % (fname, it))
+        return it == 'cls._getJoinsToCreate()'
+    drop_shares = iterates_joins_to_create('dropJoinTables')
+    link_create = link_key('_getJoinsToCreate')
+    link_drop = link_create if drop_shares else link_key('dropJoinTables')
 
     def passes_flag(fname, callee, kwname):
         """does `fname` hand its own if-exists flag on to `callee`?"""
@@ -450,7 +460,9 @@ def extract(repo):
 
     def dedupes(fname):
         return 'join.intermediateTable in [j.intermediateTable for j in joins]' in ast.unparse(find_func(so_cls, fname))
-    create_dedupes, drop_dedupes = dedupes('_getJoinsToCreate'), dedupes('dropJoinTables')
+    create_dedupes = dedupes('_getJoinsToCreate')
+    drop_dedupes = create_dedupes if drop_shares else dedupes('dropJoinTables')
+    expect(iterates_joins_to_create('createJoinTables'), 'createJoinTables no longer iterates _getJoinsToCreate()')
 
     def pair(a, b):
         return '(%s, %s)' % (L(a), L(b))
